@@ -39,7 +39,7 @@ MIRI_PROFILE = S.profile(renames=0.3, dups=0.05, attrs=0.0, sizes=[("small", 100
 @st.composite
 def cases(draw, tier="quick"):
     spec = draw(S.enum_specs(PROFILE))
-    cfg = draw(S.configs(spec, p_on=0.75, split=False, p_sorted=0.15))
+    cfg = draw(S.configs(spec, p_on=[0.3, 0.75, 0.75, 0.95], split=False, p_sorted=0.15))
     return {"spec": spec, "cfg": cfg, "seed": draw(st.integers(0, 2 ** 31))}
 
 
